@@ -12,6 +12,7 @@ failure: C09.  REST endpoint: correspondence slice `rest` (+ `Model/Rest`), not 
 import Orda.Proofs.PatchDiff
 import Orda.Proofs.DocPatch
 import Orda.Proofs.DocRemoteInv
+import Orda.Proofs.DocTxNet
 namespace Orda.Props.C19
 open Orda
 
@@ -85,5 +86,33 @@ theorem patchByJSON_in_any_reachable_state (cuid : String) (create : Bool) (r : 
       d'.view.canon = (JVal.obj tgt).canon :=
   let ⟨d', h1, h2, h3, _⟩ := DPatch.patchByJSON_reaches_target r d hs (DR.docInv_life cuid create r hl) tgt hn hk
   ⟨d', h1, h2, h3⟩
+
+/-! ### END TO END (`DTx`, Proofs/DocTxNet): n document replicas with pairwise distinct client ids and one server log; steps: any
+public call, any user transaction, ANY PatchByJSON (targets without null), push of the whole pending buffer, pull of the whole rest of
+the log through one `receive` — in any interleaving -/
+
+open Orda.DTx in
+/-- in EVERY reachable state of the system PatchByJSON on any replica succeeds and leaves that replica's JSON value equal to the target -/
+theorem patchByJSON_reaches_target_anywhere (cuid : Nat → String) (n : Nat) (net : DNet.Net) (h : DTx.Reach cuid n net)
+    (i : Nat) (nd : DNet.Node) (hi : net.nodes[i]? = some nd) (d : Doc) (hs : nd.r.state = .doc d)
+    (tgt : List (String × JVal)) (hn : (JVal.obj tgt).hasNull = false) (hk : DC.JKeysND (.obj tgt)) :
+    ∃ d', (nd.r.patchByJSON (.obj tgt)).1.state = .doc d' ∧ (nd.r.patchByJSON (.obj tgt)).2.2 = .ok () ∧
+      d'.view.canon = (JVal.obj tgt).canon :=
+  dtx_patch_reaches_target h hi hs tgt hn hk
+
+open Orda.DTx Orda.DA in
+/-- "the operations it emits bring every other replica to the same value": after a patch on replica i, once everything is pushed
+    and pulled (only syncs follow) ALL replicas show one JSON value; and when no operation of another replica was concurrent to the
+    patch (`NoConc`: replica i had consumed the whole log, the others had nothing pending) that value IS the target.  (With concurrent
+    operations the common value merges them — `DTx.Ex` — which is what C01 promises, not the target.) -/
+theorem patch_brings_every_replica_to_the_same_value (cuid : Nat → String) (n : Nat) (net : DNet.Net) (h : DTx.Reach cuid n net)
+    (i : Nat) (nd : DNet.Node) (hi : net.nodes[i]? = some nd) (tgt : List (String × JVal))
+    (hn : (JVal.obj tgt).hasNull = false) (hk : DC.JKeysND (.obj tgt)) (net1 net2 : DNet.Net)
+    (h1 : net1 = ⟨net.nodes.set i { r := (nd.r.patchByJSON (.obj tgt)).1, pushed := nd.pushed, pulled := nd.pulled }, net.log⟩)
+    (hsync : Syncs net1 net2) (hq : DNet.Quiescent net2) :
+    (∀ (j k : Nat) (dj dk : Doc), DNet.Holds net2 j dj → DNet.Holds net2 k dk → ASim dj dk ∧ dj.view.canon = dk.view.canon) ∧
+    (NoConc net i → ∀ (j : Nat) (dj : Doc), DNet.Holds net2 j dj → dj.view.canon = (JVal.obj tgt).canon) := by
+  obtain ⟨_, _, hall, hno⟩ := dtx_patch_propagates h hi tgt hn hk h1 hsync hq
+  exact ⟨hall, fun hc j dj hj => (hno hc j dj hj).1⟩
 
 end Orda.Props.C19
